@@ -711,6 +711,9 @@ def C_axis_diag(repo, clause):
         ok = whole or len(entries) == 6
         tol = [c_ for c_ in ast.walk(e) if isinstance(c_, ast.Call) and call_name(c_) in ("allclose", "isclose")]
         angles = [c_ for c_ in ast.walk(e) if isinstance(c_, ast.Call) and call_name(c_) in ("cell_abc_alpha_beta_gamma", "arccos", "degrees", "cell_angles")]
+        if not angles and not whole and not entries:
+            # the angles may arrive through a tuple unpacking, which expand does not look through
+            angles = [c_ for c_ in co.own_nodes() if isinstance(c_, ast.Call) and call_name(c_) in ("cell_abc_alpha_beta_gamma", "arccos", "cell_angles")]
         detail = ""
         if tol:
             ok = False
@@ -724,7 +727,7 @@ def C_axis_diag(repo, clause):
             detail = " -- only the off-diagonal entries %s are examined: a cell with other non-zero off-diagonal entries is classed as orthorhombic" % sorted(entries)
         obs.append(Ob("Caxis", clause, co, rets[0], ok,
                       "orthorhombic test compares the whole cell matrix exactly with its diagonal part%s" % detail,
-                      slot="orthorhombic-test", positive=bool(tol) or bool(angles) or (bool(entries) and len(entries) < 6) or (not ok and bad_diag is not None)))
+                      slot="orthorhombic-test", positive="robust" if (tol or angles) else ((bool(entries) and len(entries) < 6) or (not ok and bad_diag is not None))))
     return obs
 
 
@@ -1570,6 +1573,36 @@ def _inline_cross_temps(fn, t):
     return ast.fix_missing_locations(_S().visit(copy.deepcopy(t)))
 
 
+def C_roll_every_return(repo, clause):
+    """quaternion_from_two_vectors_around_axis hands back the roll that brings the orientation point into place.  Every normal return must be that rotation
+    (R.from_quat built from the measured angle).  A shortcut that returns the identity when a point is "on the axis" within a tolerance (projected length below a
+    constant) skips the roll for points that are merely CLOSE to the axis: the pattern is then found in one pose and not after a turn about its own axis."""
+    fn = repo.fn("quaternion_from_two_vectors_around_axis")
+    obs = []
+    rets = [r for r in fn.own_nodes() if isinstance(r, ast.Return)]
+    n_full = 0
+    for r in rets:
+        v = r.value
+        try:
+            ve = expand(fn, v) if v is not None else None
+        except Exception:
+            ve = v
+        full = ve is not None and any(isinstance(c, ast.Call) and call_name(c) == "from_quat" for c in ast.walk(ve))
+        if full:
+            n_full += 1
+            continue
+        gs = norm_guards(fn, r)
+        tol = [c for t, pol, k in gs for c in ast.walk(t) if isinstance(c, ast.Constant) and isinstance(c.value, float) and c.value > 1e-12]
+        obs.append(Ob("Cquat", clause, fn, r, False,
+                      "`%s` under `%s`: this return is not the rotation built from the measured roll angle%s" % (
+                          ast.unparse(r)[:40], " and ".join(ast.unparse(t)[:40] for t, pol, k in gs)[:90] or "no condition",
+                          "; the condition is a THRESHOLD (%s) on a length, so an orientation point that is only close to the axis (a slightly bent chain) gets no roll at all and the "
+                          "pose check then rejects - or accepts - the match depending on how the pattern happens to be turned" % ", ".join(repr(c.value) for c in tol[:2]) if tol else ""),
+                      slot="roll-every-return", positive="robust" if tol else False, undecided=not tol))
+    obs.append(Ob("Cquat", clause, fn, fn.node, n_full >= 1, "%d return(s) hand back the rotation built from the roll angle" % n_full, construct="def %s" % fn.name, slot="roll-return-count"))
+    return obs
+
+
 def C_roll_gate(repo, clause):
     """In the pose loop of the search, the second rotation (the roll about the matched axis that brings the orientation
     point into place) is applied whenever the match has more than two atoms.  Rolling is never harmful (the pose is
@@ -1752,6 +1785,18 @@ def C_fractional_wrap(repo, clause, modules=("mofun.mofun", "mofun.atoms")):
     for fn in repo.all_fns():
         if fn.module.name not in modules:
             continue
+        # a triangular solver reads ONE triangle of its matrix: with a cell matrix it silently ignores the entries on the other side of the diagonal, which are
+        # zero only for cells in the LAMMPS orientation - the fractional coordinates of a generally oriented (or upper-triangular) cell come out wrong
+        for c_ in [x for x in fn.own_nodes() if isinstance(x, ast.Call) and call_name(x) in ("solve_triangular", "cho_solve", "lu_solve_triangular") and x.args]:
+            try:
+                m_ = expand(fn, c_.args[0])
+            except Exception:
+                m_ = c_.args[0]
+            if any(isinstance(y, ast.Attribute) and y.attr == "cell" for y in ast.walk(m_)) or any(isinstance(y, ast.Name) and y.id == "cell" for y in ast.walk(m_)):
+                obs.append(Ob("Cfrac", clause, fn, c_, False,
+                              "`%s` in %s solves with ONE triangle of the cell matrix: the entries on the other side of the diagonal are ignored, so for every cell that is not stored in "
+                              "that triangular (LAMMPS) orientation the fractional coordinates - and the atoms wrapped through them - are displaced by non-lattice vectors" % (
+                                  ast.unparse(c_)[:60], fn.qualname), slot="triangular-solve:%s" % fn.qualname, positive="robust"))
         for n in fn.own_nodes():
             if not (isinstance(n, ast.BinOp) and isinstance(n.op, ast.Mod) and const_value(n.right) == 1):
                 continue
